@@ -51,6 +51,7 @@ extern "C" __attribute__((noinline)) void h_persist2() {
     x.setStatus(verif_range(0, 2047) & ~(uint32_t)BLOCK_VALID_MASK | BLOCK_VALID_TREE);
     if (verif_cbool()) x.setPayloads<ATV>({id256(3)});
     if (verif_cbool()) x.setPayloads<VTB>({id256(4), id256(5)});
+    if (x.hasPayloads()) x.setFlag(BLOCK_HAS_PAYLOADS);   // representation invariant of the ALT index: payload ids present => BLOCK_HAS_PAYLOADS (setPayloads in AltBlockTree)
     auto e1 = altE(7), e2 = altE(9), ea = altE(11);
     if (verif_cbool()) x.insertContainingEndorsement(e1);
     if (verif_cbool()) x.insertEndorsedBy(e2.get());
